@@ -1154,11 +1154,13 @@ func (c *c09) Gen(r *hx.Run) {
 		}
 		r.Do("c09.replace", true, "hosts-replaced-while-a-connection-ends")
 		// random walks over the connection table
-		var tk []string
-		for j := 0; j < 4+rng.Intn(8); j++ {
-			tk = append(tk, []string{"g", "g", "g", "L", "P", "R", "E"}[rng.Intn(7)])
+		for w := 0; w < r.N(4, 12); w++ {
+			var tk []string
+			for j := 0; j < 4+rng.Intn(8); j++ {
+				tk = append(tk, []string{"g", "g", "g", "L", "P", "R", "E"}[rng.Intn(7)])
+			}
+			r.Do("c09.table "+strings.Join(tk, " "), true, "table-walk")
 		}
-		r.Do("c09.table "+strings.Join(tk, " "), true, "table-walk")
 	}
 	// bursts: many clients at the same moment against a connection limit
 	for i := 0; i < r.N(6, 120); i++ {
